@@ -615,4 +615,16 @@ class Facade:
         return s.replies.pop(0)
 
     def shutdown(self):
+        # ActorSystem.shutdown() asks every actor to exit and waits: what is already queued in a mailbox ahead of the exit request is
+        # still handled (e.g. a completion message that was on its way when the race failed)
+        s = self.system
+        if not getattr(s, "shutting_down", False):
+            s.shutting_down = True
+            saved = (s.hang, s.interrupt_at)
+            s.interrupt_at = None
+            try:
+                s.run_until_quiescent(60.0)
+            except SimHang:
+                pass
+            s.hang = saved[0]
         self.system.shutdown()
